@@ -1360,8 +1360,8 @@ func ruleR14_4(w *World, r *Report) {
 				}
 				counter := false
 				for _, h2 := range loopHeaders(fn) {
-					if h2 == h || !loopBlocks(fn, h2)[h] {
-						continue
+					if h2 != h && !loopBlocks(fn, h2)[h] {
+						continue // neither this loop nor one around it
 					}
 					if iff, isIf := h2.Instrs[len(h2.Instrs)-1].(*ssa.If); isIf {
 						if bo, isB := iff.Cond.(*ssa.BinOp); isB && bo.Op == token.GTR {
